@@ -59,7 +59,8 @@ pub fn main(args: &[String]) {
             break; }
         for fidx in 0..nfuncs {
             let exported = a.exports.iter().any(|e| e.1 == 0 && e.2 as usize == fidx);
-            let kinds: Vec<u8> = if fidx < ni { vec![1] } else if exported { vec![2] } else if r.chance(1, 6) { vec![if r.chance(1, 2) { 1 } else { 2 }] } else { vec![] };   // sometimes an edit that must be refused
+            let kinds: Vec<u8> = if fidx < ni { if exported { vec![1, 2] } else { vec![1] } } else if exported {   // a re-exported import: the export edit must be refused (there is no original body to keep)
+                vec![2] } else if r.chance(1, 6) { vec![if r.chance(1, 2) { 1 } else { 2 }] } else { vec![] };   // sometimes an edit that must be refused
             for kind in kinds {
                 let use_args = r.chance(1, 2); let trap = r.chance(1, 4);
                 let sig = crate_sig(&a, fidx as u32);
